@@ -268,9 +268,11 @@ GETTERS = ['get_results', 'get_results_short', 'get_results_long',
 
 
 def build_c18(rng, tier):
-    inst = instances.gen_instance(rng, {'zero_cap': rng.random() < 0.4},
-                                  thorough=False)
     bf = rng.random() < 0.2
+    sw = {'zero_cap': rng.random() < 0.4}
+    if bf:
+        sw['shape'] = 'small'      # brute force enumerates (n2+1)^n1
+    inst = instances.gen_instance(rng, sw, thorough=False)
     if bf:
         opts = {'criteria': [], 'pc': rng.random() < 0.4, 'stab': False,
                 'bf': True}
